@@ -255,6 +255,15 @@ def dec_opt(t):
     return None if t == [] else F.dec_float(t[0])
 
 
+def pick(vals, idx):
+    """element idx of a flattened weight-shaped list of encoded floats (None: absent part; 'shape': wrong size)"""
+    if vals is None:
+        return None
+    if idx >= len(vals):
+        return "shape"
+    return F.dec_float(vals[idx])
+
+
 def compare_case(case, impl, models, syn):
     """-> (mismatch detail | None, oracle failure detail | None)"""
     if not impl.get("ok"):
@@ -262,42 +271,48 @@ def compare_case(case, impl, models, syn):
         bad = [m for m in models if not isinstance(m, Exception) and m[0] == 1]
         if bad and impl.get("err") == bad[0][1]:
             return None, None
-        return {"impl_error": impl.get("msg"), "trace": impl.get("trace", "")[-600:]}, None
+        d = {"impl_error": impl.get("msg"), "trace": impl.get("trace", "")[-600:]}
+        return d, dict(d, what="the implementation raised on a valid configuration")
     T = len(case["pre"])
+    nw = 1
+    for x in impl["wshape"]:
+        nw *= x
     mis = None
     for (o, i, idx, k), m in zip(syn, models):
         if isinstance(m, Exception):
-            return {"model_error": str(m)[:800]}, None
+            mis = {"model_error": str(m)[:800]}
+            break
         if m[0] != 0:
-            return {"model_rejects": m, "impl": "ran"}, None
+            mis = {"model_rejects": m, "impl": "ran"}
+            break
         accs, outs, upd = m[1], m[2], m[3]
         for t in range(T):
             for part, j in (("pos", 0), ("neg", 1)):
                 mv = dec_opt(accs[t][j])
-                iv = impl["steps"][t][part]
-                iv = None if iv is None else F.dec_float(iv[idx])
-                if (mv is None) != (iv is None) or (mv is not None and not F.close(mv, iv)):
+                iv = pick(impl["steps"][t][part], idx)
+                if iv == "shape" or (impl["steps"][t][part] is not None and len(impl["steps"][t][part]) != nw):
+                    mis = {"synapse": [o, i], "step": t, "part": part, "detail": "part is not weight-shaped",
+                           "size": len(impl["steps"][t][part]), "weight_size": nw}
+                elif (mv is None) != (iv is None) or (mv is not None and not F.close(mv, iv)):
                     mis = {"synapse": [o, i], "step": t, "part": part, "model": mv, "impl": iv}
+                if mis:
                     break
             if mis:
                 break
         if mis:
             break
         mu = dec_opt(upd)
-        iu = F.dec_float(impl["dw"][idx])
-        lateral_diag = case["conn"] == "lateral" and o == i
-        if not lateral_diag and not F.close(mu if mu is not None else 0.0, iu):
+        iu = pick(impl["dw"], idx)
+        if iu == "shape" or not F.close(mu if mu is not None else 0.0, iu):
             mis = {"synapse": [o, i], "step": "update", "model": mu, "impl": iu}
             break
     of = None
     for (o, i, idx, k) in syn:
-        if case["conn"] == "lateral" and o == i:
-            continue
         exp = oracle_synapse(case, o, i, k)
         if exp is None:
             continue
-        got = F.dec_float(impl["w_total"][idx])
-        if not F.close(exp, got, rel=1e-9, ab=1e-11):
+        got = pick(impl["w_total"], idx)
+        if got == "shape" or not F.close(exp, got, rel=1e-9, ab=1e-11):
             of = {"synapse": [o, i], "delay_steps": k, "expected_pair_sum": exp, "observed_weight_change": got}
             break
     return mis, of
@@ -365,7 +380,12 @@ def run(ctx):
     else:
         ex += exhaustive_1x1(4, TRAINERS[:5], with_delay=True)
     cases += ex
+    # the executable instance is not a dependency of the obligation files: (re)build it against the current Gen kernels
+    with F.BuildLock():
+        ok_exec, mk_out = F.make(["C08/StdpExec.vo"], timeout=900)
     impl, mismatches, oracle_fail, nterms = evaluate(cases)
+    if not ok_exec:
+        mismatches.insert(0, {"case": None, "detail": "executable model C08/StdpExec.v does not build: " + mk_out[-1500:]})
     return {
         "evaluations": len(cases),
         "distinct_nontrivial": len({json.dumps(c, sort_keys=True) for c in cases if nontrivial(c)}),
